@@ -50,3 +50,9 @@ Record marshal_flow := mk_marshal_flow { mf_cfg : string; mf_field : string; mf_
 
 (* an assignment inside an auth setter (pkg/auth/token.go) *)
 Record auth_set := mk_auth_set { as_func : string; as_field : string; as_expr : wexpr }.
+
+(* shape of pkg/util/net/conn.go NewCryptoReadWriter(rw, key) *)
+Inductive crw_shape :=
+| CrwAlways      (* every non-error return is {Reader: crypto.NewReader(rw, key), Writer: crypto.NewWriter(rw, key)};
+                    the only other return is the error return of NewWriter: the cipher exists for EVERY key value *)
+| CrwUnknown (text : string).   (* any other statement / early return (e.g. returning rw itself for some keys) *)
